@@ -71,6 +71,7 @@ func (ctx *Context) Parse(value string) error {
 		return errors.New("正在执行中，无法执行新的语句")
 	}
 
+	verifShared("@parse.enter", false)
 	p := newParser("", []byte(value), memoized(true))
 	ctx.parser = p
 	d := p.cur.data
@@ -91,6 +92,7 @@ func (ctx *Context) Parse(value string) error {
 	if ctx.Config.ParseExprLimit != 0 {
 		p.maxExprCnt = ctx.Config.ParseExprLimit
 	}
+	verifShared("@parse.run", false)
 	_, err := func() (val any, err error) {
 		defer func() {
 			// 超出 ParseExprLimit 时解析器以 panic 终止，这里转为普通错误
